@@ -3,6 +3,7 @@ in the identified set; relabelling the alternatives commutes with the whole fore
 import Model.Mdcev
 import Mathlib.Data.List.Basic
 
+open Num
 namespace Mdcev
 
 variable {α : Type} [NumOps α]
@@ -105,13 +106,13 @@ theorem identLoop_relabel (π : Int → Int) (v : Variant) (scale : Option α) (
     have hext : chosen.map (relabelAlt π) ++ [relabelAlt π c] = (chosen ++ [c]).map (relabelAlt π) := by
       simp
     rw [hext, totalAt_relabel]
-    by_cases h1 : belowLb (lowerBound v scale chosen) w = true
-    · simp only [h1, if_true, relabelIdent]
-    · simp only [h1]
-      by_cases h2 : Num.le budget (totalAt v scale (chosen ++ [c]) w) = true
-      · simp only [h2, if_true, relabelIdent]
-      · simp only [h2]
+    cases h1 : belowLb (lowerBound v scale chosen) w
+    · simp only [Bool.false_eq_true, ↓reduceIte]
+      cases h2 : Num.le budget (totalAt v scale (chosen ++ [c]) w)
+      · simp only [Bool.false_eq_true, ↓reduceIte]
         exact ih (chosen ++ [c]) (some w)
+      · simp only [↓reduceIte, relabelIdent]
+    · simp only [↓reduceIte, relabelIdent]
 
 theorem identifyChosen_relabel (π : Int → Int) (v : Variant) (scale : Option α) (budget : α)
     (alts : List (Alt α)) :
@@ -162,14 +163,13 @@ theorem forecast_relabel (π : Int → Int) (hπ : Function.Injective π) (v : V
       = totalAt v scale (identifyChosen v scale budget alts).chosen := by
     funext l; exact totalAt_relabel π v scale _ l
   simp only [relabelIdent, hg, anyNegAt_relabel]
-  by_cases h1 : Num.lt (identifyChosen v scale budget alts).hi (identifyChosen v scale budget alts).lo = true
-  · simp only [h1, if_true]; rfl
-  · simp only [h1]
-    by_cases h2 : (bisLoop (totalAt v scale (identifyChosen v scale budget alts).chosen)
+  cases h1 : Num.lt (identifyChosen v scale budget alts).hi (identifyChosen v scale budget alts).lo
+  · simp only [Bool.false_eq_true, ↓reduceIte]
+    generalize bisLoop (totalAt v scale (identifyChosen v scale budget alts).chosen)
         (anyNegAt v scale (identifyChosen v scale budget alts).chosen) budget tolD tolB 5000
-        ⟨(identifyChosen v scale budget alts).lo, (identifyChosen v scale budget alts).hi, true, false⟩).negative = true
-    · simp only [h2, if_true]; rfl
-    · simp only [h2, Except.map, relabelFc, List.map_map]
+        ⟨(identifyChosen v scale budget alts).lo, (identifyChosen v scale budget alts).hi, true, false⟩ = st
+    cases h2 : st.negative
+    · simp only [Bool.false_eq_true, ↓reduceIte, Except.map, relabelFc, List.map_map]
       congr 1
       congr 1
       apply List.map_congr_left
@@ -177,5 +177,7 @@ theorem forecast_relabel (π : Int → Int) (hπ : Function.Injective π) (v : V
       simp only [Function.comp]
       rw [isChosenIn_relabel π hπ]
       rfl
+    · simp only [↓reduceIte]; rfl
+  · simp only [↓reduceIte]; rfl
 
 end Mdcev
